@@ -417,22 +417,25 @@ def run(prop, tier, seed):
             # higher, every third round repeating the last step with another root.  One-at-a-time processing per key means each key's
             # answers are those of its own sequence whatever its neighbours do at the same time (a buffer, a cache or a record shared
             # between the requests of different keys shows as an answer no order explains).
-            for gi in range(3 if tier == "quick" else 30):
+            for gi in range(4 if tier == "quick" else 32):
                 ops = []
-                # (values stay inside the abstract domain of the trace specification: 1, 2, 2 again, 3, 3 again, then 1 - long refused)
-                for rnd_, (slot, root) in enumerate(((1, "A"), (2, "A"), (2, "B"), (3, "A"), (3, "B"), (1, "C"))):
+                # (in one round the keys ask for DIFFERENT values - key k for the value (round + k) mod 3 + 1 - so that whatever one key's
+                # request leaves in something shared shows in another key's record; each key's second pass must be refused throughout;
+                # values stay inside the abstract domain of the trace specification)
+                for rnd_ in range(6):
                     grp = []
-                    for k_ in range(3):
+                    for k_ in range(8):
                         rid = "s%dr%dk%d" % (gi, rnd_, k_)
-                        if (k_ + gi) % 3 == 2:
-                            grp.append(dict(id=rid, kind="att", ents=[dict(k=k_, s=slot - 1, t=slot, root=root)]))
+                        v_ = (1, 2, 3)[(rnd_ + k_) % 3]
+                        if gi % 4 == 3 and k_ % 2:
+                            grp.append(dict(id=rid, kind="att", ents=[dict(k=k_, s=v_ - 1, t=v_, root="AB"[rnd_ // 3])]))
                         else:
-                            grp.append(dict(id=rid, kind="prop", ents=[dict(k=k_, slot=slot, root=root)]))
+                            grp.append(dict(id=rid, kind="prop", ents=[dict(k=k_, slot=v_, root="AB"[rnd_ // 3])]))
                     ops.append(dict(id="round%d" % rnd_, kind="par", gate=False, ops=grp))
-                for cname_, conc_ in concs[:2]:
-                    sid = "%s-%s-sidebyside%d" % (prop, cname_, gi)
-                    scenarios.append(dict(id=sid, world=dict(nkeys=3), conc=conc_, ops=ops))
-                    meta[sid] = None
+                cname_, conc_ = concs[gi % 2]
+                sid = "%s-%s-sidebyside%d" % (prop, cname_, gi)
+                scenarios.append(dict(id=sid, world=dict(nkeys=8), conc=conc_, ops=ops, gomaxprocs=(1, 2, 16, 4)[gi % 4]))
+                meta[sid] = None
         if prop == "C15":
             # ACCOUNTS ARRIVING WHILE BATCHES RUN: four accounts created at run time (they live in the fetcher's run-time tables), then
             # twelve sequential clients send generic batches BY PUBLIC KEY over rotated and reversed selections of the two start-up and
